@@ -65,7 +65,10 @@ def gen_history(seed, tier, *, n_ops=(2, 6), genkw=None,
         elif k == "delete" and deletable:
             ops.append(dict(op="delete", store=rng.choice(deletable)))
         elif k == "fresh":
-            ops.append(dict(op="fresh"))
+            if rng.random() < 0.25 and world["stores"]:
+                ops.append(dict(op="fresh_at", store=rng.choice(sorted(world["stores"]))))
+            else:
+                ops.append(dict(op="fresh"))
         elif k == "bump" and bumpable:
             ops.append(dict(op="bump", node=rng.choice(bumpable)))
     if final_run:
